@@ -46,6 +46,8 @@ pub struct Space {
     pub cfg_ctx_limit: usize,
     /// expand L1 layouts (one per breakable gap)
     pub l1: bool,
+    /// style editions under which deviated configurations are explored (empty = all)
+    pub dev_editions: Vec<u16>,
 }
 
 pub fn program_unit(p: &Program, l: Layout, text: String, cfg: Cfg) -> Unit {
@@ -87,7 +89,7 @@ pub fn corpus_units(space: &Space, filter: Option<&dyn Fn(&gen::Template) -> boo
         for &se in &space.style_editions {
             let base = Cfg::new(se);
             let mut cfgs = vec![base.clone()];
-            if is_base && ctx_index < space.cfg_ctx_limit {
+            if is_base && ctx_index < space.cfg_ctx_limit && (space.dev_editions.is_empty() || space.dev_editions.contains(&se)) {
                 match space.cfg_mode {
                     CfgMode::DefaultOnly => {}
                     CfgMode::Dev1Relevant => cfgs.extend(configs::deviations1(&p.family, &base, true)),
